@@ -52,7 +52,8 @@ func ordinalKey(counts map[string]int, base string) string {
 
 func runC09(c *core.Ctx) {
 	defer func() {
-		c.Share(map[string]string{"R3.1": "R9.7"}, runC03) // get-and-touch under the shared lock races the back-fill of a get: L1 keeps the old expiry
+		c.Share(map[string]string{"R3.1": "R9.7", "R3.4": "R9.13"}, runC03)
+		c.Share(map[string]string{"R1.21": "R9.12"}, runC01) // the back-fill of a get gives L1 "L2's remaining lifetime": the expiry decoded from the gete reply // get-and-touch under the shared lock races the back-fill of a get: L1 keeps the old expiry
 	}()
 	c.Rule("R9.1", "every Set/Touch/GAT request an in-scope orchestrator hands to L1 or L2 carries the Exptime of the client's request (or, in the get back-fill, the Exptime of the gete response received from L2); an unset Exptime means 'never expires'", 30)
 	c.Rule("R9.2", "in the backend handlers the exptime argument of every set/add/replace/touch/gat(q) write comes from the Exptime of the same request object the key comes from; request structs rebuilt inside a handler take Exptime from the command (one reasoned exception: chunked append/prepend re-stores with the metadata's expiry)", 19)
